@@ -250,6 +250,8 @@ theorem ensurePath_ok {o r path} (hr : RootOK r) : OutOK (ensurePath o r path) :
   · exact hr
   · exact hr
   · rename_i _ parts _ _
+    split
+    · exact hr
     have := ensure_ok o parts r.selfCR r.self r.con hr.1 hr.2.1 hr.2.2
     cases h : ensure o r.selfCR r.self r.con parts with
     | ok p => obtain ⟨c, s⟩ := p; rw [h] at this; exact this
